@@ -514,7 +514,7 @@ func (p *parser) parseTupleToSubjectSet(relation item) (rewrite ast.Child) {
 		if !p.matchPropertyAccess(&subjectSetRel) {
 			return nil
 		}
-		p.match("(", "ctx", ")", ")")
+		p.match("(", "ctx", ")", optional(","), ")")
 		p.addCheck(checkAllRelationsTypesHaveRelation(
 			&p.namespace, relation, subjectSetRel,
 		))
